@@ -79,6 +79,42 @@ theorem checkGcdFactors_inv (n : Nat) (pp : Nat → Bool) (st : CgfState) (hinv 
         · split at h3 <;> (split <;> simp_all)
         · split at h4 <;> (split <;> simp_all)
 
+/-- the polynomial path keeps the invariant: the guard `f2.contains(n)` supplies `n ∉ f2` -/
+theorem pm1PolyStep_inv (n : Nat) (pp : Nat → Bool) (st : CgfState) (hinv : CgfInv n st) (hne : st.vals ≠ [])
+    (hchain : ∀ i j, i ≤ j → j < st.vals.length →
+      Nat.gcd st.nred (st.vals.getD i 0) ∣ Nat.gcd st.nred (st.vals.getD j 0)) :
+    ∃ r, pm1PolyStep n pp st = some r ∧ ∀ st', r = some st' →
+      CgfInv n st' ∧ ∃ f2 n2, gcdFactors st.nred st.vals pp = some (f2, n2) ∧ n ∉ f2 ∧
+        st' = { factors := st.factors ++ f2, nred := n2, vals := [] } := by
+  obtain ⟨hprod, hgt, hpos, hnot⟩ := hinv
+  obtain ⟨fs, rest, hg, _, hfr, hfgt, _⟩ := gcdFactors_spec st.nred st.vals pp hpos hne hchain
+  have hguard : Stage2Arms.pm1PolyGuard = true := by delta Stage2Arms.pm1PolyGuard; rfl
+  unfold pm1PolyStep
+  simp only [hg, hguard, Bool.true_and]
+  by_cases hc : fs.contains n = true
+  · rw [if_pos hc]; exact ⟨none, rfl, by simp⟩
+  · rw [if_neg hc]
+    refine ⟨_, rfl, ?_⟩
+    intro st' hst
+    simp only [Option.some.injEq] at hst
+    subst hst
+    have hnfs : n ∉ fs := by simpa using hc
+    refine ⟨⟨?_, ?_, ?_, ?_⟩, fs, rest, rfl, hnfs, rfl⟩
+    · show (st.factors ++ fs).prod * rest = n
+      rw [List.prod_append, mul_assoc, hfr]; exact hprod
+    · intro f hf
+      rcases List.mem_append.mp hf with h | h
+      · exact hgt f h
+      · exact hfgt f h
+    · show 0 < rest
+      rcases Nat.eq_zero_or_pos rest with h | h
+      · rw [h, Nat.mul_zero] at hfr; omega
+      · exact h
+    · intro h
+      rcases List.mem_append.mp h with h | h
+      · exact hnot h
+      · exact hnfs h
+
 /-- what the caller returns is a proper split: the parts multiply to `n`, each is `> 1`, none is `n` itself -/
 theorem splitResult_proper {n : Nat} {st : CgfState} (hinv : CgfInv n st) {fs : List Nat} {rest : Nat}
     (h : splitResult st = some (fs, rest)) :
